@@ -4,6 +4,7 @@ import (
 	"errors"
 	"fmt"
 	"regexp"
+	"sort"
 )
 
 // What the lexer takes for an identifier: letters, digits and underscores, not digits only
